@@ -93,8 +93,8 @@ PROPS = {
                     "response sequence observed by a raw pipelining client, net/http and the nbhttp client is compared with the model's "
                     "prediction over the matrix IOMod x {plain, TLS} x epoll mode, plus direct oracles for order, close, foreign bytes, callbacks",
             "note": "proof on model, partial: TLS record layer, real scheduling and I/O-mode dispatch are exercised, not modelled; "
-                    "the model is above C05/C06/C07/C09/C11/C20 (their conclusions are hypotheses of the composition; C05's are cited in the "
-                    "closure, c10_queue_field_is_c05, not refined).  Clause status: 'answers each request exactly once' is VIOLATED on the tree "
+                    "the model is above C05/C06/C07/C09/C11/C20 (their conclusions are hypotheses of the composition; for C05 the queue part of Pipeline is proved to "
+                    "refine ExecQ in the non-blocking modes, c10_queue_refines_execq; the parser and the response writer stay cited).  Clause status: 'answers each request exactly once' is VIOLATED on the tree "
                     "for closing requests whose response the kernel did not take in full (finding c10-close-drops-backlog, "
                     "c10_pipeline_counterexample); it is proved for histories without a closing request under any kernel behaviour "
                     "(c10_pipeline_keepalive), for any history when the kernel takes every write in full (c10_pipeline), and otherwise only "
@@ -111,8 +111,12 @@ PROPS = {
                     "to RFC 7230 6.3 only for single-option Connection lines (lists in one line deviate: "
                     "c10_close_rfc_list_counterexample).  (4) client clause: got=/lost= are echoed; timeout expiry inside onResponse and "
                     "Reset are never replayed against the implementation; the response-matches-request part assumes EnvOK (the peer sends "
-                    "exactly one response per request on the current connection).  (5) C05 is cited in the closure "
-                    "(c10_queue_field_is_c05), not refined: no theorem links ExecQ.step to Pipeline.step",
+                    "exactly one response per request on the current connection).  (5) C05: c10_queue_refines_execq is a forward "
+                    "simulation of Pipeline's queue / cur / closed fields by ExecQ.step (every enabled Pipeline action is matched by the "
+                    "ExecQ actions it stands for; C05's one-at-a-time / FIFO / exactly-once theorems are transported to `handled`) for "
+                    "cfg.sync = false only: in the blocking modes Execute runs the job inline and there is no ExecQ; the translation "
+                    "execTrace is a definition of this proof (which ExecQ actions a Pipeline action stands for), not something observed; "
+                    "C06/C07 (parse) and C09 (pieces) remain hypotheses without a refinement theorem",
             "technique": "Lean 4 proof (invariants over all interleavings, simulation for non-interference) + differential correspondence on real sockets"},
         "lean": ["NbioVerif.Properties.C10"], "drivers": ["pipedrv"], "harness": ["he2e"],
         "runs": [E2E_RUN],
